@@ -138,7 +138,7 @@ CHECKS = {
    note=TB + "Hash-map iteration order abstracted (total comparator + tie-break oracle arguments); ties among equally valued terminal nodes are reported and excluded from trajectory comparisons.",
    technique="Coq proof (two storeys: B&B under diagram contracts; contracts proved about the diagram model) + differential correspondence + specification oracle"),
  "C15": dict(cat="other", design="7.15",
-   text='Long arcs preserve optimum and termination. Pooled vs plain solver vs exhaustive enumeration on depth-free models with irrelevance patterns; termination watchdog; diagram model compared. No theorem for the pooled flavour. KNOWN FINDING D1: without cache the pooled solver may never terminate because a sub-problem can enter its own frontier cut-set (recorded in KNOWN_FINDINGS.json, not repairable by a small patch; suppressed only where the Coq model of the unchanged code reproduces the same symptom on the same instance).',
+   text='Long arcs preserve optimum and termination. Pooled vs plain solver vs exhaustive enumeration on depth-free models with irrelevance patterns; termination watchdog; diagram model compared (incl. sub-problems whose path is shorter than their depth). Coq (PooledEq.v, Props/C15u.v): for models WITHOUT long arcs the pooled diagram and the pooled sequential / parallel solvers are proved observationally equal to the frontier ones, so the theorems of C01 / C03 / C04 / C06 / C07 / C08 transfer to the pooled flavour; WITH long arcs there is no theorem. KNOWN FINDING D1: without cache the pooled solver may never terminate because a sub-problem can enter its own frontier cut-set (recorded in KNOWN_FINDINGS.json, not repairable by a small patch; suppressed only where the Coq model of the unchanged code reproduces the same symptom on the same instance).',
    note=TB + "Hash-map iteration order abstracted (total comparator + tie-break oracle arguments); ties among equally valued terminal nodes are reported and excluded from trajectory comparisons.",
    technique="executable Coq model + differential correspondence + specification oracle"),
  "C19": dict(cat="proof", design="7.19",
